@@ -28,6 +28,13 @@
                                              the closure panics on its j-th call (0-based); on
                                              insert_row_with / insert_column_with: the iterator's
                                              `next` panics on its j-th call
+                                             An in-place map whose closure panics answers
+                                             `panic RxC storage=consistent cells=old-or-mapped ## len= kind= pattern=<o|m|=…>`:
+                                             obs is what the property demands of the survivor,
+                                             the pattern of mapped cells is aux
+    renumber <b> | fill <v>                  cell (i, j) := b + 100·i + j | every cell := v
+                                             (map_mut_with_index / map_mut ignoring the old value:
+                                             re-synchronises a case after a panicking in-place map)
     scalar                                   → val=<v> | panic         (read-only, &self)
     try_into_scalar                          → ok(<v>) | err           (on a clone)
     row_iter <r> | column_iter <c> | diagonal_iter via=iter|reference_iter
@@ -147,6 +154,8 @@ def parseOp (toks : List String) : Option (Matrix.Op Nat) :=
   | "map_mut" :: k :: _ => k.toNat?.map fun k => .mapMut (· + k)
   | "map_mut_with_index" :: k :: _ =>
     k.toNat?.map fun k => .mapMutWithIndex fun x i j => x + k * (i + 1) + j
+  | "renumber" :: b :: _ => b.toNat?.map fun b => .mapMutWithIndex fun _ i j => b + 100 * i + j
+  | "fill" :: v :: _ => v.toNat?.map fun v => .mapMut fun _ => v
   | "map" :: k :: _ => k.toNat?.map fun k => .map (· + k)
   | "map_with_index" :: k :: _ =>
     k.toNat?.map fun k => .mapWithIndex fun x i j => x + k * (i + 1) + j
@@ -210,6 +219,41 @@ def showListQuery (spec model : Outcome (List Nat)) : String :=
     | .ok l => s!"vals={showNats l}"
     | .panic k => s!"panic ## kind={k}"
   if (md.splitOn " ## ").head! = sp then md else s!"{sp} ## MODEL-SPEC-DISAGREE {md}"
+
+/-- The answer to an in-place map whose closure panicked.  `obs`: the survivor has the old size,
+    a storage of rows·columns elements, and every cell holds its old or its mapped value
+    (`inplace_map_panic_obs`); `aux`: which cells were mapped (`xstep_refines`). -/
+def inplacePanicAnswer (old : Rows Nat) (f : Nat → Nat → Nat → Nat) (res : Matrix.Res Nat) : String :=
+  let r := Rows.nrows old
+  let c := Rows.ncols old
+  let spec := s!"panic {r}x{c} storage=consistent cells=old-or-mapped"
+  let new := res.state.toRows
+  let mark (i j : Nat) : Char :=
+    match Rows.cell old i j, Rows.cell new i j with
+    | some o, some n =>
+      if n = o && n = f o i j then '=' else if n = o then 'o' else if n = f o i j then 'm' else '?'
+    | _, _ => '?'
+  let pattern := ";".intercalate ((List.range r).map fun i =>
+    String.ofList ((List.range c).map fun j => mark i j))
+  let modelOk := res.state.rows = r && res.state.columns = c &&
+    res.state.data.length = r * c && !(pattern.toList.contains '?') && res.panic.isSome
+  let kind := match res.panic with
+    | some k => s!" kind={k}"
+    | none => ""
+  if modelOk then s!"{spec} ## len={res.state.data.length}{kind} pattern={pattern}"
+  else s!"{spec} ## MODEL-SPEC-DISAGREE {showModel res.state} pattern={pattern}"
+
+/-- the mapping function of an in-place map with a panicking closure, if the operation is one -/
+def inplaceFn : Matrix.XOp Nat → Option (Nat → Nat → Nat → Nat)
+  | .mapMutPanic f _ => some fun x _ _ => f x
+  | .mapMutWithIndexPanic f _ => some f
+  | _ => none
+
+/-- the answer line of an (extended) operation -/
+def xanswer (st : St) (x : Matrix.XOp Nat) (res : Matrix.Res Nat) : String :=
+  match inplaceFn x, Rows.xpanics st.rs x with
+  | some f, true => inplacePanicAnswer st.rs f res
+  | _, p => answer p (Rows.xnext st.rs x) res
 
 /-- Run a constructor through the code-shaped model (`Ctor.build`) and the specification
     (`Rows.ctorPre`, `Rows.ctorRows`; the rows are only materialised when the precondition holds). -/
@@ -303,7 +347,7 @@ def step (s : State) (toks : List String) : State × String :=
     match s, parseXOp rest with
     | none, some _ => (s, "no-matrix")
     | some st, some x =>
-      (s, answer (Rows.xpanics st.rs x) (Rows.xnext st.rs x) (Matrix.xexec st.m x))
+      (s, xanswer st x (Matrix.xexec st.m x))
     | _, none => (s, "bad-op")
   | _ =>
     match s, parseXOp toks with
@@ -311,7 +355,7 @@ def step (s : State) (toks : List String) : State × String :=
     | some st, some x =>
       let res := Matrix.xexec st.m x
       let rs' := Rows.xnext st.rs x
-      (some ⟨res.state, rs'⟩, answer (Rows.xpanics st.rs x) rs' res)
+      (some ⟨res.state, rs'⟩, xanswer st x res)
     | _, none => (s, "bad-op")
 
 end Driver.C11
